@@ -27,6 +27,12 @@ def run(db, rep, tier):
     r4(db, rep)
     from rules import c03_r3
     c03_r3.run(db, rep)
+    rep.rule("R5-rfc4884-types", "the serialiser rewrites the RFC 4884 length byte only for message types in which that byte is not another "
+                                 "field: ICMP {3, 11, 12}, ICMPv6 {1, 3} (accept set of are_extensions_allowed over all 256 type values)", 2)
+    r5(db, rep)
+    rep.rule("R6-trailer-agreement", "RadioTap: trailer_size() counts the 4-byte FCS exactly when the parser strips one (FLAGS present and FCS "
+                                     "bit set), independently of anything else", 1)
+    r6(db, rep)
     rep.explanation = ("Structural part of C03: the next-protocol tag is only rewritten when the payload class is recognised (R1), the two "
                        "directions of the tag tables agree for every layer class (R2), readers and writers walk the same member sequence "
                        "(R3), and no wire-derived selector value lacks a serialiser arm (R4). NOT decided: value-dependent losses (ICMP "
@@ -285,3 +291,84 @@ def r4(db, rep):
                 rep.ok("R4-exhaustive", key, facts.loc(f, sw), "arms %s cover the %d wire-derived value(s)" % (sorted(arms), len(wire)))
     if n < 1:
         rep.analysis_broken("no default-less enum switch found on the serialisation path (LLC's control-field switch expected)")
+
+
+RFC4884 = {"Tins::ICMP": {3, 11, 12}, "Tins::ICMPv6": {1, 3}}
+
+
+def r5(db, rep):
+    from vlib import ieval
+    for K, allowed in sorted(RFC4884.items()):
+        fs = [f for f in db.fns_named(K + "::are_extensions_allowed") if f.get("body")]
+        if not fs:
+            rep.analysis_broken("%s::are_extensions_allowed vanished" % K)
+            continue
+        f = fs[0]
+        key = "%s::are_extensions_allowed" % K.split("::")[-1]
+
+        def tf(x):
+            if x["k"] == "CXXMemberCallExpr" and x.get("cname") == "type" and len(x["c"]) == 1:
+                return tf.v
+            if x["k"] == "MemberExpr" and x.get("isfield") and x.get("member") == "type":
+                return tf.v
+            return None
+        acc = set()
+        try:
+            for v in range(256):
+                tf.v = v
+                if ieval.run_body(f, f["body"], {"__termfn__": tf}):
+                    acc.add(v)
+        except ieval.Unknown as e:
+            rep.analysis_broken("%s: outside the finite evaluator: %s" % (key, e))
+            continue
+        extra = sorted(acc - allowed)
+        if extra:
+            rep.violation("R5-rfc4884-types", key, facts.loc(f),
+                          "message type(s) %s are treated as RFC 4884 multi-part messages: for them the byte the serialiser overwrites with "
+                          "the derived length belongs to another field (e.g. the pointer of an ICMPv6 Parameter Problem), so a value the "
+                          "user set or that was parsed does not survive serialisation" % extra)
+        elif not acc:
+            rep.violation("R5-rfc4884-types", key, facts.loc(f), "no message type carries extensions any more")
+        else:
+            rep.ok("R5-rfc4884-types", key, facts.loc(f), "accept set %s within %s (256 values evaluated)" % (sorted(acc), sorted(allowed)))
+
+
+def r6(db, rep):
+    from vlib import formula
+    fs = [f for f in db.fns_named("Tins::RadioTap::trailer_size") if f.get("body")]
+    if not fs:
+        rep.analysis_broken("RadioTap::trailer_size vanished")
+        return
+    f = fs[0]
+    key = "RadioTap::trailer_size"
+    try:
+        atoms, table = formula.truth_table(f, classify=lambda ret, env: bool(facts.cval(ret["c"][0])) if ret.get("c") and facts.cval(ret["c"][0]) is not None else "?")
+    except facts.AnalysisBroken as e:
+        rep.analysis_broken("%s: %s" % (key, e))
+        return
+    role = {}
+    for a in atoms:
+        if "skip_to_field" in a:
+            role[a] = "present"
+        elif "FCS" in a and "FAILED" not in a:
+            t_ = a.replace(" ", "")
+            role[a] = "fcs-clear" if t_.endswith("==0") else "fcs"
+    if sorted(x.replace("-clear", "") for x in role.values()) != ["fcs", "present"]:
+        rep.analysis_broken("%s: the FLAGS-present and FCS-bit tests were not recognised among %s" % (key, atoms))
+        return
+    bad = None
+    for vals, res in table.items():
+        env = dict(zip(atoms, vals))
+        want = all((not env[a]) if role[a].endswith("-clear") else env[a] for a in role)
+        if res == "?":
+            rep.analysis_broken("%s returns a non-constant" % key)
+            return
+        if bool(res) != want:
+            others = dict((a, v) for a, v in env.items() if a not in role)
+            bad = ("with FLAGS present and the FCS bit set the parser strips 4 bytes, but trailer_size() returns %s when %s: the frame "
+                   "libtins writes is %s than the one it accepts" % ("0" if want else "4", others or "-", "shorter" if want else "longer"))
+            break
+    if bad:
+        rep.violation("R6-trailer-agreement", key, facts.loc(f), bad)
+    else:
+        rep.ok("R6-trailer-agreement", key, facts.loc(f), "non-zero exactly when FLAGS is present and FCS is set (%d rows over %s)" % (len(table), atoms))
